@@ -75,6 +75,11 @@ fn sweeps(tier: Tier) -> Vec<(&'static str, Strings)> {
         };
         v.push((*cfg, Strings::new(&alphabet(cfg, false), l)));
     }
+    // the same registered sets, but every string of <= 2 fragments is tokenised BEFORE the
+    // operators are registered (a lexeme seen as a name first must be an operator afterwards)
+    for cfg in &CONFIGS[1..] {
+        v.push((if *cfg == "symbolic" { "symbolic-primed" } else { "words-primed" }, Strings::new(&alphabet(cfg, false), 3)));
+    }
     // deeper over the small alphabet for the registered-operator configurations
     for cfg in &CONFIGS[1..] {
         v.push((*cfg, Strings::new(&alphabet(cfg, true), tier.pick(5, 6))));
@@ -282,6 +287,15 @@ impl Prop for C10 {
     fn run(&self, tier: Tier, stage: usize, a: u64, b: u64, out: &mut WorkerOut) {
         let sw = sweeps(tier);
         let (cfg, strings) = &sw[stage];
+        let primed = cfg.ends_with("-primed");
+        let cfg = &cfg.trim_end_matches("-primed");
+        if primed {
+            let before = OpSet::builtin();
+            let prime = Strings::new(&alphabet(cfg, false), 2);
+            for i in 0..prime.len() {
+                check_tokens(&prime.get(i), &before, "priming", out);
+            }
+        }
         let ops = install(cfg);
         let name = format!("{}{}", cfg, stage);
         for i in a..b {
